@@ -2,6 +2,7 @@ package main
 
 import (
 	"fmt"
+	"sort"
 
 	"github.com/ulikunitz/lz/simyield"
 )
@@ -193,6 +194,23 @@ func runMulti(t *Trace, want string, rng *RNG) (results []*Result, switches int)
 		}
 		if len(shared) > 0 {
 			s.focus = shared[rng.Intn(len(shared))]
+			if rng.Chance(0.5) {
+				// half of the focused runs pick among the five shared functions
+				// that are executed least often (Shrink/Reset paths): hot loops
+				// overlap by chance anyway, rarely executed code does not
+				hits := map[string]int64{}
+				for _, mt := range s.tasks {
+					for site, total := range mt.profile {
+						hits[simyield.SiteFunc[site]] += total
+					}
+				}
+				rare := append([]string(nil), shared...)
+				sort.SliceStable(rare, func(i, j int) bool { return hits[rare[i]] < hits[rare[j]] })
+				if len(rare) > 5 {
+					rare = rare[:5]
+				}
+				s.focus = rare[rng.Intn(len(rare))]
+			}
 		}
 	}
 	for _, mt := range s.tasks {
